@@ -78,6 +78,7 @@ package anthropic
 // what is returned is the assembled message: its blocks and stop reason are convertResponseContent's
 // (decoded JSON: the nested objects of the response exist; listed assumption, as for the request side)
 //@   at call convertResponseContent 1 assume typeis(message["tool_calls"], "[]interface{}") ==> (forall j int :: 0 <= j && j < len(blocksOf(message["tool_calls"])) && isObj(blocksOf(message["tool_calls"])[j]) ==> allocated(blkMap(blocksOf(message["tool_calls"])[j])))
+//@   at return 5 assert anthropicResp.Model == ite(typeis(respMap["model"], "string"), asString(respMap["model"]), "unknown")
 //@   at return 5 assert anthropicResp.Type == "message" && anthropicResp.Role == "assistant" && len(anthropicResp.Content) >= 1 && anthropicStop(anthropicResp.StopReason) && sameSlice(anthropicResp.Content, content) && anthropicResp.StopReason == stopReason
 
 // ---- C13: the streamed translation obeys Anthropic's event grammar for EVERY sequence of backend chunks.
